@@ -1029,6 +1029,9 @@ func Replay(args []string) {
 					r.Fail(key, rep, "%s: signed through %v with %s: embedded digests %v of the standalone run are absent", tn, script, b.Offered, miss)
 				}
 				r.Count("remote_signed_ok", 1)
+				if len(b.Log) > 1 {
+					r.Sample(map[string]any{"type": tn, "behaviour": b, "observed": got})
+				}
 			} else {
 				r.Count("remote_error_as_specified", 1)
 			}
